@@ -5,6 +5,9 @@ a later weakening of the lemma breaks the property file instead of silently weak
 import json, os, re, subprocess, sys
 spec = json.load(open(sys.argv[1]))
 COQ = "/verif/coq"
+sys.path.insert(0, os.path.dirname(os.path.abspath(__file__)))
+import coqbuild
+coqbuild.make(targets=["-k"])     # every .vo consistent with the current sources before statements are read
 imports = spec["imports"]
 script = imports + "\nSet Printing Width 100000.\nSet Printing Depth 100000.\n" + "\n".join(f'Check {it["lemma"]}.' for it in spec["items"]) + "\n"
 p = subprocess.run(["coqtop", "-Q", COQ, "MD", "-quiet"], input=script.encode(), stdout=subprocess.PIPE, stderr=subprocess.PIPE, cwd=COQ)
